@@ -63,7 +63,8 @@ Definition agrees (k : case) : bool :=
    another token / 9 bodies of distinct tokens spliced: Spec.c04_class_x) on the OBSERVED trace *)
 (* ... then the clauses that need the clock and the shape of the script (SpecTime.c04_class_t): 10 / 11 a Do
    returned ok with the 2.31 Continue that just arrived (exchange in good standing / not), 12 the peers of a
-   loss-free script keep exchanging blocks without end *)
+   loss-free script keep exchanging blocks without end; a wrong response body (class 1) that is the beginning of
+   one representation of the resource followed by the rest of a different one is class 13 *)
 Definition pclass (k : case) : N :=
   match k with
   | Case c es os => c04_class_t c [] es os (untimed es)
